@@ -76,6 +76,12 @@ def tours(edges, init_key=None, max_len=400):
             scen.append(edges[ei]["act"])
             cur = tk[ei]
             if nondet[ei]:       # end the scenario here
+                # the implementation takes whichever successor it takes: the sibling edges (same state, same call)
+                # would schedule the very same calls again
+                sib = [x for x in unvisited[fk[ei]] if ak[x] == ak[ei]]
+                if sib:
+                    unvisited[fk[ei]] = [x for x in unvisited[fk[ei]] if ak[x] != ak[ei]]
+                    remaining -= len(sib)
                 scenarios.append(scen)
                 scen, cur = [], init_key
             continue
